@@ -271,5 +271,28 @@ func policyCorners() []*PolCase {
 		{AllowIP: []string{"10.1.0.0/16"}, Idents: []Ident{{"ip", "10.2.0.1"}}},
 		{AllowIP: []string{"10.1.0.0/16"}, Idents: []Ident{{"dns", "zap.internal"}}},
 		{NoPolicy: true, Idents: []Ident{{"dns", "*.anything.test"}}},
+		// one-sided and mixed rule sets (a policy with only deny rules, only IP rules, only the wildcard switch, is still a policy)
+		{DenyDNS: []string{"zap.internal"}, Idents: []Ident{{"dns", "zap.internal"}}},
+		{DenyDNS: []string{"zap.internal"}, Idents: []Ident{{"dns", "other.test"}}},
+		{DenyDNS: []string{"*.zap.internal"}, Idents: []Ident{{"dns", "a.zap.internal"}}},
+		{DenyDNS: []string{"*.zap.internal"}, Wild: true, Idents: []Ident{{"dns", "*.zap.internal"}}},
+		{DenyIP: []string{"10.1.0.0/16"}, Idents: []Ident{{"ip", "10.1.2.3"}}},
+		{DenyIP: []string{"10.1.0.0/16"}, Idents: []Ident{{"ip", "10.2.0.1"}}},
+		{DenyIP: []string{"10.1.0.0/16"}, Idents: []Ident{{"dns", "zap.internal"}}},
+		{DenyDNS: []string{"zap.internal"}, Idents: []Ident{{"ip", "10.1.2.3"}}},
+		{AllowDNS: []string{"zap.internal"}, Idents: []Ident{{"ip", "10.1.2.3"}}},
+		{AllowDNS: []string{"zap.internal"}, DenyIP: []string{"10.1.0.0/16"}, Idents: []Ident{{"ip", "10.2.0.1"}}},
+		{AllowIP: []string{"10.1.0.0/16"}, DenyDNS: []string{"zap.internal"}, Idents: []Ident{{"dns", "other.test"}}},
+		{AllowDNS: []string{"zap.internal"}, DenyDNS: []string{"zap.internal"}, Idents: []Ident{{"dns", "zap.internal"}}},
+		{AllowIP: []string{"10.1.0.0/16"}, DenyIP: []string{"10.1.2.0/24"}, Idents: []Ident{{"ip", "10.1.2.3"}}},
+		{AllowIP: []string{"10.1.0.0/16"}, DenyIP: []string{"10.1.2.0/24"}, Idents: []Ident{{"ip", "10.1.3.3"}}},
+		{Wild: true, Idents: []Ident{{"dns", "*.anything.test"}}},
+		{Idents: []Ident{{"dns", "anything.test"}}},
+		{AllowDNS: []string{"*.zap.internal", "zap.internal"}, Idents: []Ident{{"dns", "a.zap.internal"}, {"dns", "other.test"}}},
+		{AllowDNS: []string{"zap.internal"}, AllowIP: []string{"10.1.0.0/16"}, Idents: []Ident{{"dns", "zap.internal"}, {"ip", "10.2.0.1"}}},
+		{AllowDNS: []string{"zap.internal"}, AllowIP: []string{"10.1.0.0/16"}, Idents: []Ident{{"dns", "zap.internal"}, {"ip", "10.1.0.1"}}},
+		{AllowIP: []string{"fd00::/8"}, Idents: []Ident{{"ip", "fd00::1"}}},
+		{DenyIP: []string{"fd00::/8"}, Idents: []Ident{{"ip", "fd00::1"}}},
+		{AllowIP: []string{"10.1.0.0/16"}, Idents: []Ident{{"ip", "::ffff:10.1.2.3"}}},
 	}
 }
